@@ -82,9 +82,29 @@ class Norm:
                         changed = True
                         continue
                 ok = False
-            if ok and changed:
+            if ok and changed and self._unchanged_only_without_affine_form(b, tb):
                 out[b.rec["path"]] = True
         return out
+
+    def _unchanged_only_without_affine_form(self, b, tb):
+        """*self may stay as it was only on the path where to_affine() returned None (z = 0)."""
+        import itertools
+        atoms = paths.collect_atoms(b, tb)
+        datoms = [a for a in atoms if a[0] == "discr"]
+        others = [a for a in atoms if a[0] != "discr"]
+        aff = [a for a in datoms if any(s[0] == "call" and s[1].name == "to_affine" for s in walk(a[1]))]
+        if len(aff) != 1:
+            return False
+        for dc in itertools.product([0, 1], repeat=len(datoms)):
+            for asg in paths.enumerate_assignments(others):
+                choice = dict(zip(datoms, dc))
+                res = paths.simulate(b, tb, paths.Evaluator(asg), discr_choice=choice)
+                if res.end != "return":
+                    continue
+                v = paths.path_value(b, tb, res.blocks, ("deref", 1))
+                if v == ("init", ("deref", 1)) and choice[aff[0]] != 0:
+                    return False
+        return True
 
     # -------------------------------------------------------------- direct reads
     def coord_reads(self, body, p):
